@@ -139,6 +139,23 @@ pub fn drive(args: &[String]) {
     for s in &big {
         emit_all(&mut sink, &dsym_json(s), &mut rng, false, 3);
     }
+    // (c) disconnected symbols: disjoint unions of connected generator outputs, in both orders (every
+    // predicate and traversal law is about ALL components, not only the one of chamber 1)
+    let thorough = std::env::var("DSV_THOROUGH").is_ok();
+    for dim in [2usize, 3] {
+        let pool: Vec<PartialDSym> = sets_with_branching(dim, if dim == 2 { 4 } else { 2 }, &[1, 2], 2, &mut rng);
+        for a in &pool {
+            for b in &pool {
+                let small = a.size().min(b.size()) <= 2;
+                if !(small || (thorough && dim == 2)) && !rng.gen_bool(0.03) { continue; }
+                let (na, nb) = (a.size(), b.size());
+                let u = build_sym_using_vs(
+                    build_set(na + nb, dim, |i, d| if d <= na { a.op(i, d) } else { b.op(i, d - na).map(|e| e + na) }),
+                    |i, d| if d <= na { a.v(i, i + 1, d) } else { b.v(i, i + 1, d - na) });
+                emit_all(&mut sink, &dsym_json(&u), &mut rng, false, 2);
+            }
+        }
+    }
     sink.flush();
     println!("{}", json!({"events": sink.n}));
 }
